@@ -501,6 +501,18 @@ impl FakeRedis {
                     Resp::Arr(Array::Arr(batch.iter().map(|(_, k)| bulk(k)).collect())),
                 ]))
             }
+            // scripts cannot run in the stand-in; routing of EVAL/EVALSHA is what the rigs observe
+            "EVAL" | "EVALSHA" => int(1),
+            "TOUCH" => {
+                need!(2);
+                let mut n = 0;
+                for k in &cmd[1..] {
+                    if self.live(k, now) {
+                        n += 1;
+                    }
+                }
+                int(n)
+            }
             "DBSIZE" => int(self.data.len() as i64),
             "FLUSHALL" | "FLUSHDB" => {
                 self.data.clear();
